@@ -209,6 +209,25 @@ def run_case(ctx, col, case):
         st["synced"] = True
         return ok and end_to_end("sync")
 
+    def in_context():
+        """Moves under a transform that only lives inside current_transform(): on exit the previous
+        transform must be back in force for the moves that follow."""
+        snap = model.context_snapshot()
+        col.count("transform_contexts")
+        with g.current_transform():
+            if not change_transform() or not sync():
+                return False
+            for _ in range(rng.randint(1, 4)):
+                rel = g.distance_mode.is_relative
+                kw = {a: (rng.uniform(-10, 10) if rel else rng.uniform(-40, 40)) for a in "xyz" if rng.random() < 0.5}
+                req = {a.upper(): v for a, v in kw.items()}
+                if not do_call("move", (), kw, requested=req) or not end_to_end("move-in-context"):
+                    return False
+        model.context_revert(snap)
+        kinds_used.append("context-exit")
+        st["synced"] = False
+        return sync()
+
     for _ in range(rng.randint(2, 4)):
         if not change_transform():
             return
@@ -216,6 +235,8 @@ def run_case(ctx, col, case):
             g.set_distance_mode(rng.choice(["absolute", "relative"]))
             s.drain()
         if not sync():
+            return
+        if rng.random() < 0.3 and not in_context():
             return
         for _ in range(rng.randint(4, 10)):
             r = rng.random()
@@ -274,6 +295,8 @@ def run_case(ctx, col, case):
 def _r(obj):
     if isinstance(obj, dict):
         return {k: _r(v) for k, v in obj.items()}
+    if hasattr(obj, "tolist"):
+        return _r(obj.tolist())
     if isinstance(obj, (list, tuple)):
         return [_r(v) for v in obj]
     if callable(obj):
